@@ -78,7 +78,7 @@ def num_close(a, b, scale, rel=1e-9):
     return abs(fa - fb) <= rel * max(abs(fa), abs(fb)) + rel * scale
 
 
-def diff(a, b, scale=1.0, path="$", out=None, limit=8, drop_names=False):
+def diff(a, b, scale=1.0, path="$", out=None, limit=8, drop_names=False, exact=False):
     """Differences between two observations.  Exact fields compared exactly (NaN == NaN),
     accumulated fields (sum/mean/variance) within rel*max + rel*scale.  ANY on either side matches."""
     if out is None:
@@ -97,18 +97,18 @@ def diff(a, b, scale=1.0, path="$", out=None, limit=8, drop_names=False):
         for k in sorted(kb - ka):
             out.append((path + "." + k, "<missing>", b[k]))
         for k in sorted(ka & kb):
-            if k in ACCUMULATED and not isinstance(a[k], (dict, list)) and not isinstance(b[k], (dict, list)):
+            if not exact and k in ACCUMULATED and not isinstance(a[k], (dict, list)) and not isinstance(b[k], (dict, list)):
                 if not num_close(a[k], b[k], scale):
                     out.append((path + "." + k, a[k], b[k]))
             else:
-                diff(a[k], b[k], scale, path + "." + k, out, limit, drop_names)
+                diff(a[k], b[k], scale, path + "." + k, out, limit, drop_names, exact)
         return out
     if isinstance(a, list) and isinstance(b, list):
         if len(a) != len(b):
             out.append((path + ".len", len(a), len(b)))
             return out
         for i, (x, y) in enumerate(zip(a, b)):
-            diff(x, y, scale, "%s[%d]" % (path, i), out, limit, drop_names)
+            diff(x, y, scale, "%s[%d]" % (path, i), out, limit, drop_names, exact)
         return out
     if isinstance(a, (dict, list)) or isinstance(b, (dict, list)):
         out.append((path, _short(a), _short(b)))
